@@ -34,6 +34,9 @@ pub enum Step {
     InteractPanic { h: u8 },
     /// a closure that blocks on a gate and then panics; its interact() future is cancelled at once
     GatedPanic { h: u8, gate: u8 },
+    /// a closure that blocks on a gate and then leaves the connection broken (r2d2 has_broken
+    /// flag / dangling diesel transaction) without panicking; its interact() future is cancelled
+    GatedBreak { h: u8, gate: u8 },
     Release { gate: u8 },
     MarkBroken { h: u8, how: u8 },
 }
@@ -183,6 +186,36 @@ impl ConnX {
         matches!(r, Err(deadpool_sync::InteractError::Panic(_)))
     }
     /// starts a closure that blocks on the gate and then panics; the interact future is dropped
+    /// like gated_panic, but the closure breaks the connection quietly when the gate opens
+    async fn gated_break(&self, gates: Gates, g: usize, started: Arc<Mutex<bool>>, sstate: Arc<Mutex<SState>>) {
+        let d = Duration::from_millis(3);
+        match self {
+            ConnX::Sqlite(_) => {}
+            ConnX::Diesel(o) => {
+                let _ = tokio::time::timeout(
+                    d,
+                    o.interact(move |c| {
+                        *lock(&started) = true;
+                        wait_gate(&gates, g);
+                        let _ = AnsiTransactionManager::begin_transaction(c);
+                    }),
+                )
+                .await;
+            }
+            ConnX::R2d2(o) => {
+                let _ = tokio::time::timeout(
+                    d,
+                    o.interact(move |c| {
+                        *lock(&started) = true;
+                        wait_gate(&gates, g);
+                        lock(&sstate).broken.insert(c.serial);
+                    }),
+                )
+                .await;
+            }
+        }
+    }
+
     async fn gated_panic(&self, gates: Gates, g: usize, started: Arc<Mutex<bool>>) {
         let f = move || {
             *lock(&started) = true;
@@ -453,6 +486,28 @@ async fn interp(case: &Case, gates: Gates, v: &mut Verdict) {
                 pending_bad.push((g, held[i].id));
                 v.labels.push("cancelled-interact-with-pending-panic".into());
             }
+            Step::GatedBreak { h, gate } => {
+                let Some(i) = pick(h, held.len()) else { continue };
+                let g = gate as usize % 4;
+                if matches!(held[i].conn, ConnX::Sqlite(_)) || held[i].busy_gate.is_some() || bad.contains(&held[i].id) || *lock(&gates[g].0) {
+                    continue;
+                }
+                let started = Arc::new(Mutex::new(false));
+                held[i].conn.gated_break(gates.clone(), g, started.clone(), sstate.clone()).await;
+                for _ in 0..200 {
+                    if *lock(&started) {
+                        break;
+                    }
+                    tokio::time::sleep(Duration::from_millis(1)).await;
+                }
+                if !*lock(&started) {
+                    v.inconclusive = Some("gated closure did not start".into());
+                    return;
+                }
+                held[i].busy_gate = Some(g);
+                pending_bad.push((g, held[i].id));
+                v.labels.push("cancelled-interact-that-breaks-the-connection".into());
+            }
             Step::Release { gate } => {
                 release!(gate as usize);
             }
@@ -528,6 +583,7 @@ pub fn case(thorough: bool) -> BoxedStrategy<Case> {
         2 => any::<u8>().prop_map(|h| Step::InteractOk { h }),
         4 => any::<u8>().prop_map(|h| Step::InteractPanic { h }),
         2 => (any::<u8>(), 0u8..3).prop_map(|(h, gate)| Step::GatedPanic { h, gate }),
+        2 => (any::<u8>(), 0u8..3).prop_map(|(h, gate)| Step::GatedBreak { h, gate }),
         2 => (0u8..3).prop_map(|gate| Step::Release { gate }),
         3 => (any::<u8>(), any::<u8>()).prop_map(|(h, how)| Step::MarkBroken { h, how }),
     ];
